@@ -14,7 +14,7 @@ theorem Inv.tr_frame {cfg : Cfg} {s s' : St} {d : Disk} (h : Inv cfg s d) (hph :
     (e6 : s'.jfrozen = s.jfrozen) (e7 : s'.jcur = s.jcur) (e8 : s'.nextFile = s.nextFile) (e9 : s'.live = s.live)
     (e10 : s'.stJn = s.stJn) (e11 : s'.stSq = s.stSq) (e12 : s'.manifestFd = s.manifestFd)
     (e13 : s'.manifestOpen = s.manifestOpen) (e14 : s'.recov = s.recov) (e15 : s'.issued = s.issued)
-    (e16 : s'.everFailed = s.everFailed)
+    (e16 : s'.everFailed = s.everFailed) (e17 : s'.limbo = s.limbo) (e18 : s'.manifestFailed = s.manifestFailed)
     (hq : s.seq ≤ s'.seq) (htr : TrOK s') : Inv cfg s' d := by
   have hrun := h.run hph
   have hb := h.bounds (by rw [hph]; decide)
@@ -29,13 +29,14 @@ theorem Inv.tr_frame {cfg : Cfg} {s s' : St} {d : Disk} (h : Inv cfg s d) (hph :
     exact hb.of_same rfl (seqHi_le_of_not_window (not_trWindow_of_nojob hjob) (not_trWindow_of_nojob hjob') hq)
       (by rw [e8]; exact Nat.le_refl _) (fun _ => ⟨hph, by rw [e7]; exact Nat.le_refl _⟩)
   · intro _
-    obtain ⟨r1, r2, r3, r4, r5, r6, r7, r8, r9⟩ := hrun
+    obtain ⟨r1, r2, r3, r4, r5, r6, r7, r8, r9, r10⟩ := hrun
     refine ⟨⟨by rw [e14]; exact r1.1, htr⟩, ⟨?_, by rw [e13]; exact r2.2⟩, ?_, by rw [e7, e8]; exact r4,
-      by rw [e8]; exact r5, ?_, ?_, ?_, fun _ => ?_⟩
+      by rw [e8]; exact r5, ?_, ?_, ?_, fun _ => ?_,
+      r10.frame e17 e18 e10 e11 e9 e2 rfl hq hmg (by rw [e8]; exact Nat.le_refl _)⟩
     · have := r2.1
       unfold MfdOK at this ⊢
       rw [hjob] at this
-      rw [hjob', e12]
+      rw [hjob', e12, e17]
       exact this
     · rw [e7, e4, e3]
       refine r3.imp (fun jf hjf => ?_)
@@ -63,8 +64,18 @@ theorem Inv.tr_frame {cfg : Cfg} {s s' : St} {d : Disk} (h : Inv cfg s d) (hph :
       · exact Or.inr (Or.inr ⟨h1.1.mono hq hmg, fun hx => h1.2 (by rw [← e16]; exact hx)⟩)
     · have := r9 hjob
       unfold Settled at this ⊢
-      refine this.imp (fun mf1 hmf1 => ⟨fun ho => hmf1.1 (by rw [← e13]; exact ho), hmf1.2.imp (fun v hv => ?_)⟩)
-      exact ⟨by rw [e9]; exact hv.1, by rw [e10]; exact hv.2.1, by rw [e11]; exact hv.2.2⟩
+      refine this.imp (fun mf1 hmf1 => ⟨fun ho hl => hmf1.1 (by rw [← e13]; exact ho) (by rw [← e17]; exact hl),
+        hmf1.2.imp (fun v hv => ?_)⟩)
+      have hv' : MirrorL s v := hv
+      unfold MirrorL at hv' ⊢
+      rw [e17]
+      cases hu : s.limbo with
+      | none =>
+        rw [hu] at hv'
+        exact ⟨by rw [e9]; exact hv'.1, by rw [e10]; exact hv'.2.1, by rw [e11]; exact hv'.2.2⟩
+      | some u =>
+        rw [hu] at hv'
+        exact ⟨by rw [e9]; exact hv'.1, by rw [e10]; exact hv'.2.1, by rw [e11]; exact hv'.2.2⟩
   · intro hc; rw [e1, hph] at hc; cases hc
   · intro hc; rw [e1, hph] at hc; cases hc
   · show Holds' s'.job _
@@ -73,11 +84,11 @@ theorem Inv.tr_frame {cfg : Cfg} {s s' : St} {d : Disk} (h : Inv cfg s d) (hph :
 theorem Inv.tr_running {cfg : Cfg} {s : St} {d : Disk} (h : Inv cfg s d) {g : Grp} (hg : s.tr = some g) :
     s.phase = .running := by
   rcases hp : s.phase with _ | _ | _
-  · have := (h.crashed hp).2.2.2; rw [hg] at this; cases this
+  · have := (h.crashed hp).2.2.2.1; rw [hg] at this; cases this
   · have := h.recov hp
     rw [holds_iff] at this
     obtain ⟨r, _, hr⟩ := this
-    have := hr.idle.2.2; rw [hg] at this; cases this
+    have := hr.idle.2.2.1; rw [hg] at this; cases this
   · rfl
 
 theorem inv_stepTr {cfg : Cfg} {s : St} {d : Disk} (h : Inv cfg s d) {a : Act} {s' : St}
@@ -90,7 +101,7 @@ theorem inv_stepTr {cfg : Cfg} {s : St} {d : Disk} (h : Inv cfg s d) {a : Act} {
       obtain ⟨hph, hw, hmem, hfz, hjob, _⟩ := hg
       simp only [Option.some.injEq] at hs
       subst hs
-      exact h.tr_frame hph hjob hw hmem hfz rfl rfl rfl rfl rfl rfl rfl rfl rfl rfl rfl rfl rfl rfl rfl rfl
+      exact h.tr_frame hph hjob hw hmem hfz rfl rfl rfl rfl rfl rfl rfl rfl rfl rfl rfl rfl rfl rfl rfl rfl rfl rfl
         (Nat.le_refl _) ⟨hw, hmem, hfz, rfl, rfl⟩
     · cases hs
   | trPut recs =>
@@ -106,7 +117,7 @@ theorem inv_stepTr {cfg : Cfg} {s : St} {d : Disk} (h : Inv cfg s d) {a : Act} {
         unfold TrOK at htr
         rw [hg] at htr
         exact h.tr_frame hph hjob htr.1 htr.2.1 htr.2.2.1 rfl rfl rfl rfl rfl rfl rfl rfl rfl rfl rfl rfl rfl
-          rfl rfl rfl (Nat.le_refl _) htr
+          rfl rfl rfl rfl rfl (Nat.le_refl _) htr
       · cases hs
     · cases hs
   | trDiscard =>
@@ -122,7 +133,7 @@ theorem inv_stepTr {cfg : Cfg} {s : St} {d : Disk} (h : Inv cfg s d) {a : Act} {
         unfold TrOK at htr
         rw [hg] at htr
         exact h.tr_frame hph hjob htr.1 htr.2.1 htr.2.2.1 rfl rfl rfl rfl rfl rfl rfl rfl rfl rfl rfl rfl rfl
-          rfl rfl rfl (Nat.le_max_left _ _) trivial
+          rfl rfl rfl rfl rfl (Nat.le_max_left _ _) trivial
       · cases hs
     · cases hs
   | trCommit =>
@@ -141,7 +152,7 @@ theorem inv_stepTr {cfg : Cfg} {s : St} {d : Disk} (h : Inv cfg s d) {a : Act} {
           unfold TrOK at htr0
           rw [hg] at htr0
           exact h.tr_frame hph hjob htr0.1 htr0.2.1 htr0.2.2.1 rfl rfl rfl rfl rfl rfl rfl rfl rfl rfl rfl rfl
-            rfl rfl rfl rfl (Nat.le_refl _) trivial
+            rfl rfl rfl rfl rfl rfl (Nat.le_refl _) trivial
         · rename_i hne
           have hgne : g.recs ≠ [] := by simpa using hne
           simp only [Option.some.injEq] at hs
@@ -150,11 +161,6 @@ theorem inv_stepTr {cfg : Cfg} {s : St} {d : Disk} (h : Inv cfg s d) {a : Act} {
           have hb := h.bounds (by rw [hph]; decide)
           have hsett := hrun.nojob hjob
           obtain ⟨mf, vl, hcur, hlv, hvl⟩ := h.lastView_some
-          have hmfd : s.manifestFd = d.current := by
-            have := hrun.mfd.1
-            unfold MfdOK at this
-            rw [hjob] at this
-            exact this
           have htr := hrun.norecov.2
           unfold TrOK at htr
           rw [hg] at htr
@@ -171,10 +177,16 @@ theorem inv_stepTr {cfg : Cfg} {s : St} {d : Disk} (h : Inv cfg s d) {a : Act} {
               exact Or.inl hx
           · exact h.mm
           · intro _
-            exact hb.of_same rfl (seqHi_le_of_not_window (not_trWindow_of_nojob hjob)
-              (not_trWindow_of_bc rfl rfl) (Nat.le_refl _)) (Nat.le_succ _) (fun _ => ⟨hph, Nat.le_refl _⟩)
+            refine hb.of_same rfl ?_ (Nat.le_succ _) (fun _ => ⟨hph, Nat.le_refl _⟩)
+            rw [seqHi_eq (not_trWindow_of_nojob hjob)]
+            unfold seqHi sqCap
+            simp only [hg, if_true]
+            have := Grp.seq_lt_fin hgne
+            split
+            · omega
+            · exact Nat.le_refl _
           · intro _
-            obtain ⟨r1, r2, r3, r4, r5, r6, r7, r8, r9⟩ := hrun
+            obtain ⟨r1, r2, r3, r4, r5, r6, r7, r8, r9, r10⟩ := hrun
             have hmust' : ∀ (s' : St) (x : Grp), x ∈ must s' → s'.w = s.w → s'.issued = s.issued ++ [⟨g, .pending⟩] → x ∈ must s := by
               intro s' x hx e1 e2
               rw [must_eq] at hx ⊢
@@ -182,8 +194,13 @@ theorem inv_stepTr {cfg : Cfg} {s : St} {d : Disk} (h : Inv cfg s d) {a : Act} {
               simp only [ackedSync_append_pending] at hx
               exact hx
             refine ⟨r1, ⟨?_, r2.2⟩, ?_, ⟨Nat.lt_succ_of_lt r4.1, r4.2⟩, ⟨nums_bump r5.1 (Nat.lt_succ_self _),
-              r5.2.imp (fun m hm => Nat.lt_succ_of_lt hm)⟩, ?_, ?_, ?_, fun hc => by cases hc⟩
-            · show MfdOK _ d; unfold MfdOK; exact hmfd
+              r5.2.imp (fun m hm => Nat.lt_succ_of_lt hm)⟩, ?_, ?_, ?_, (fun hc => by cases hc),
+              r10.spawn hjob rfl (fun o ho => by
+                simp only [List.mem_singleton] at ho
+                subst ho
+                exact Nat.le_refl _) (Or.inr rfl) rfl rfl rfl rfl rfl rfl (Nat.le_refl _)
+                (fun x hx => Or.inl (hmust' _ x hx rfl rfl)) (Nat.le_succ _)⟩
+            · exact r2.1.transport (by rw [hjob]; intro m hm; cases hm) (by intro m hm; cases hm) rfl rfl rfl
             · show Holds (lookup d.journals s.jcur) _
               refine r3.imp (fun jf hjf => ?_)
               obtain ⟨a, b, c, e⟩ := hjf
@@ -230,7 +247,7 @@ theorem inv_stepTr {cfg : Cfg} {s : St} {d : Disk} (h : Inv cfg s d) {a : Act} {
               refine ⟨fun o ho => ?_, fun n hn => by cases hn⟩
               simp only [List.mem_singleton] at ho
               subst ho
-              exact (hb.all mf' hcur k hk v hv).2.1
+              exact Or.inl (hb.all mf' hcur k hk v hv).2.1
             · exact ⟨rfl, rfl, rfl⟩
             · intro i o hi
               show OutOK d (.tCreate 0) i o
@@ -252,22 +269,24 @@ theorem inv_stepTr {cfg : Cfg} {s : St} {d : Disk} (h : Inv cfg s d) {a : Act} {
 abbrev St.discarded (s : St) (g : Grp) : St :=
   { s with tr := none, job := none, seq := max s.seq (g.fin - 1), hi := max s.hi g.fin, issued := setStatus g .failed s.issued }
 
-/-- `Discard` after a failed `Commit` (the job is at its retry point, its record is not in the manifest): the
-    transaction's table is removed, or — the manifest being uncertain — left behind as an obsolete file -/
+/-- `Discard` after a failed `Commit` (the job is at its retry point): the transaction's table is removed, or — the
+    manifest being uncertain — left behind as an obsolete file.  If the record of the commit is in the manifest
+    `CURRENT` names (`St.limbo`), the table stays and the record becomes that of an orphan: a later `Open` adopts
+    the table, whose sequence numbers are consumed and reported as failed. -/
 theorem inv_trDiscardJob_core {cfg : Cfg} {s : St} {d : Disk} (h : Inv cfg s d) {g : Grp} {j : Job}
-    (hg : s.tr = some g) (hj : s.job = some j) (hk : j.kind = .tr) (hpc : j.pc = .append)
-    (hsett : Settled cfg s d (Mirror s)) {T : Files TableFile}
-    (hT : T = d.tables ∨ ∃ t, j.outs = [(t, [g])] ∧ T = d.tables.erase t) :
+    (hg : s.tr = some g) (hj : s.job = some j) (hk : j.kind = .tr) (hpc : j.pc = .append) {T : Files TableFile}
+    (hT : T = d.tables ∨ (s.limbo = none ∧ ∃ t, j.outs = [(t, [g])] ∧ T = d.tables.erase t)) :
     Inv cfg (s.discarded g) { d with tables := T } := by
   have hok := h.job
   rw [hj] at hok
   have hok : JobOK cfg s d j := hok
   have hbc : j.pc.beforeCommit = true := by rw [hpc]; rfl
+  have hsett : Settled cfg s d (MirrorL s) := hok.mirror_before hbc
   have hkind := hok.kind
   unfold JobKindOK at hkind
   rw [hk] at hkind
   simp only at hkind
-  obtain ⟨hph, _, _, _, _⟩ := hkind
+  obtain ⟨hph, _, _, _, hkind'⟩ := hkind
   have hrun := h.run hph
   have hb := h.bounds (by rw [hph]; decide)
   have htr := hrun.norecov.2
@@ -279,41 +298,50 @@ theorem inv_trDiscardJob_core {cfg : Cfg} {s : St} {d : Disk} (h : Inv cfg s d) 
     rw [must_eq] at hx ⊢
     simp only [hw, List.append_nil] at hx ⊢
     exact (mem_ackedSync_setStatus_failed hx).1
+  have hgm : g ∉ must (s.discarded g) := by
+    intro hx
+    rw [must_eq] at hx
+    simp only [hw, List.append_nil] at hx
+    exact (mem_ackedSync_setStatus_failed hx).2 rfl
   have hiss : ∀ x ∈ issuedGrps s, x ∈ issuedGrps (s.discarded g) := by
     intro x hx
     simp only [issuedGrps, issuedGrps_setStatus] at hx ⊢
     exact hx
   have hq : s.seq ≤ (s.discarded g).seq := Nat.le_max_left _ _
   have hmg : MustGrows s (s.discarded g) := fun x hx => Or.inl (hmust x hx)
-  have hfd : s.manifestFd = d.current := by
-    have := hrun.mfd.1
-    unfold MfdOK at this
-    rw [hj] at this
-    simp only [Option.map_some, hpc] at this
-    exact this
   constructor
   · apply DiskOK.frame h.disk (d' := { d with tables := T }) rfl rfl _ _ h.disk.mnodup hmust hiss
     · intro mf hc k hk' v hv t ht
-      rcases hT with rfl | ⟨t0, ho, rfl⟩
+      rcases hT with rfl | ⟨hl, t0, ho, rfl⟩
       · rfl
       · show lookup (d.tables.erase t0) t = _
         rw [lookup_erase, if_neg]
         intro e
         have hf := holds_some (holds_some (hok.fresh.2 hbc) hc k hk') hv
-        have h1 := hf.1 (t0, [g]) (by rw [ho]; exact List.mem_singleton.2 rfl)
+        have h1 := (hf.1 (t0, [g]) (by rw [ho]; exact List.mem_singleton.2 rfl)).resolve_right (fun hx => by
+          have := hx.2.1; rw [hl] at this; cases this)
         have h2 := ((h.disk.allViews mf hc k hk' v hv).tables t ht).1
         simp only at h1
         omega
-    · rcases hT with rfl | ⟨t0, _, rfl⟩
+    · rcases hT with rfl | ⟨_, t0, _, rfl⟩
       · exact h.disk.tnodup
       · exact pairwise_erase t0 h.disk.tnodup
   · exact h.mm.of_same rfl rfl
   · intro _
-    exact hb.of_same rfl (seqHi_le_of_not_window (not_trWindow_of_bc hj hbc) (not_trWindow_of_nojob rfl) hq)
-      (Nat.le_refl _) (fun _ => ⟨hph, Nat.le_refl _⟩)
+    refine hb.of_same rfl ?_ (Nat.le_refl _) (fun _ => ⟨hph, Nat.le_refl _⟩)
+    rw [seqHi_eq (s := s.discarded g) (not_trWindow_of_nojob rfl)]
+    unfold seqHi sqCap
+    rw [hj]
+    simp only [hk, hg, if_true]
+    split
+    · exact Nat.le_max_right _ _
+    · exact Nat.le_max_left _ _
   · intro _
-    obtain ⟨r1, r2, r3, r4, r5, r6, r7, r8, r9⟩ := hrun
-    refine ⟨⟨r1.1, trivial⟩, ⟨MfdOK.nojob rfl hfd, r2.2⟩, ?_, r4, r5, ?_, ?_, ?_, fun _ => ?_⟩
+    obtain ⟨r1, r2, r3, r4, r5, r6, r7, r8, r9, r10⟩ := hrun
+    refine ⟨⟨r1.1, trivial⟩, ⟨r2.1.transport (by
+        rw [hj]; intro m hm
+        simp only [Option.map_some, hpc] at hm
+        cases hm) (by intro m hm; cases hm) rfl rfl rfl, r2.2⟩, ?_, r4, r5, ?_, ?_, ?_, fun _ => ?_, ?_⟩
     · refine r3.imp (fun jf hjf => ?_)
       obtain ⟨a, b, c, e⟩ := hjf
       refine ⟨a, fun x hx hxm => b x hx (hmust x hxm), fun x hx => ?_, e⟩
@@ -332,14 +360,68 @@ theorem inv_trDiscardJob_core {cfg : Cfg} {s : St} {d : Disk} (h : Inv cfg s d) 
       · exact Or.inr (Or.inl h1)
       · exact Or.inr (Or.inr ⟨h1.1.mono hq hmg, h1.2⟩)
     · exact hsett
+    · -- the edit that may be in the manifest is now that of an orphan
+      unfold LimboOK
+      show Holds' s.limbo _
+      cases hu : s.limbo with
+      | none => trivial
+      | some u =>
+        have hTd : T = d.tables := by
+          rcases hT with rfl | ⟨hl, _⟩
+          · rfl
+          · rw [hu] at hl; cases hl
+        subst hTd
+        have hlf : LimboFacts s d u := by
+          have := r10; unfold LimboOK at this; rw [hu] at this; exact this
+        obtain ⟨a, b, c, e1, f, gl, k0, k⟩ := hlf
+        refine ⟨a, b, c, e1, f, gl, trivial, Or.inr ?_⟩
+        rcases k with k | k
+        · rw [hj] at k
+          obtain ⟨ke, _⟩ : j.edit = some u ∧ j.pc.retry = true := k
+          rw [hg] at hkind'
+          have hkk : Holds j.edit fun e => e.jn = none ∧ e.sq = some (g.fin - 1) ∧
+              j.outs = [(e.added.headD 0, [g])] ∧ g.recs ≠ [] ∧ g ∈ issuedGrps s := hkind'
+          rw [ke] at hkk
+          obtain ⟨ejn, esq, houts, hgne, _⟩ :
+            u.jn = none ∧ u.sq = some (g.fin - 1) ∧ j.outs = [(u.added.headD 0, [g])] ∧ g.recs ≠ [] ∧
+              g ∈ issuedGrps s := hkk
+          have hsh := hok.shape
+          rw [ke] at hsh
+          have hadd : u.added = [u.added.headD 0] := by
+            have := hsh.1
+            rw [houts] at this
+            exact this
+          have hin := hok.inputs
+          rw [ke] at hin
+          have hin : InputsOK s d j u := hin
+          unfold InputsOK at hin
+          rw [if_neg (by rw [hk]; exact fun hx => nomatch hx)] at hin
+          have htab := hok.tables 0 (u.added.headD 0, [g]) (by rw [houts]; rfl)
+          unfold OutOK at htab
+          rw [hpc] at htab
+          have htab := htab rfl
+          rw [holds_iff] at htab
+          obtain ⟨tf, htf, rfl⟩ := htab
+          refine ⟨hin.1, ejn, holds_of_some (a := u.added.headD 0) (by rw [hadd]; rfl) ⟨hadd, ?_, ?_⟩⟩
+          · exact hok.fresh.1 (u.added.headD 0, [g]) (by rw [houts]; exact List.mem_singleton.2 rfl)
+          · refine holds_of_some htf ⟨rfl, rfl, holds_of_some (a := g) rfl ⟨rfl, esq, hgm, hgne, ?_, trivial⟩⟩
+            show g.fin ≤ max s.seq (g.fin - 1) + 1
+            have := Nat.le_max_right s.seq (g.fin - 1)
+            omega
+        · obtain ⟨k1, k2, k3⟩ := k
+          refine ⟨k1, k2, k3.imp (fun t ht => ⟨ht.1, ht.2.1, ht.2.2.imp (fun tf htf => ⟨htf.1, htf.2.1,
+            htf.2.2.imp (fun g0 hg0 => ?_)⟩)⟩)⟩
+          obtain ⟨m1, m2, m4, m5, m6, m7⟩ := hg0
+          exact ⟨m1, m2, fun hx => m4 (hmust g0 hx), m5, Nat.le_trans m6 (Nat.succ_le_succ hq), trivial⟩
   · intro hc; rw [hph] at hc; cases hc
   · intro hc; rw [hph] at hc; cases hc
   · trivial
 
-theorem JobOK.settled_at_append {cfg : Cfg} {s : St} {d : Disk} {j : Job} (h : JobOK cfg s d j) (hpc : j.pc = .append) :
-    Settled cfg s d (Mirror s) := h.mirror_before (by rw [hpc]; rfl)
-
+/-- `Discard` with a commit job at its retry point.  While the storage may be ahead of the session (`St.limbo`) the
+    step keeps the invariant because the repaired `Discard` leaves the tables alone (`discardKeepsTablesWhenUncertain`,
+    commit 5cf4e90); the old code removes them: `C08.d10_discard_after_failed_commit_loses_table`. -/
 theorem inv_trDiscardJob {cfg : Cfg} {s : St} {d : Disk} (h : Inv cfg s d) {s' : St} {d' : Disk}
+    (hD10 : s.limbo = none ∨ cfg.discardKeepsTablesWhenUncertain = true)
     (hs : trDiscardJob cfg s d = some (s', d')) : Inv cfg s' d' := by
   unfold trDiscardJob at hs
   split at hs
@@ -356,19 +438,32 @@ theorem inv_trDiscardJob {cfg : Cfg} {s : St} {d : Disk} (h : Inv cfg s d) {s' :
       unfold JobKindOK at hkind
       rw [hk] at hkind
       simp only at hkind
-      obtain ⟨_, _, _, _, hkind⟩ := hkind
+      obtain ⟨hph, _, _, _, hkind⟩ := hkind
       rw [hg] at hkind
       have hkind : Holds j.edit fun e => e.jn = none ∧ e.sq = some (g.fin - 1) ∧
           j.outs = [(e.added.headD 0, [g])] ∧ g.recs ≠ [] ∧ g ∈ issuedGrps s := hkind
       rw [holds_iff] at hkind
       obtain ⟨e, he, _, _, houts, _⟩ := hkind
       split
-      · exact inv_trDiscardJob_core h hg hj hk hpc (hok.settled_at_append hpc) (Or.inl rfl)
-      · have : (j.outs.foldl (fun d o => d.apply (.remove .table o.1)) d) =
+      · exact inv_trDiscardJob_core h hg hj hk hpc (Or.inl rfl)
+      · rename_i hkeep
+        have hl : s.limbo = none := by
+          cases hu : s.limbo with
+          | none => rfl
+          | some u =>
+            exfalso
+            have hlf := (h.run hph).limbo
+            unfold LimboOK at hlf
+            rw [hu] at hlf
+            have hmf : s.manifestFailed = true := (hlf : LimboFacts s d u).1
+            rcases hD10 with h1 | h1
+            · rw [hu] at h1; cases h1
+            · exact hkeep (by rw [h1, hmf]; rfl)
+        have : (j.outs.foldl (fun d o => d.apply (.remove .table o.1)) d) =
             { d with tables := d.tables.erase (e.added.headD 0) } := by
           rw [houts]; rfl
         rw [this]
-        exact inv_trDiscardJob_core h hg hj hk hpc (hok.settled_at_append hpc) (Or.inr ⟨_, houts, rfl⟩)
+        exact inv_trDiscardJob_core h hg hj hk hpc (Or.inr ⟨hl, _, houts, rfl⟩)
     · cases hs
   · cases hs
 
